@@ -86,6 +86,8 @@ struct Shared {
     evictions: AtomicU64,
     /// value -> leave notifications seen (any reason).
     leaves: Mutex<BTreeMap<u64, Vec<u8>>>,
+    /// get_or_fetch calls: (key, the value its origin would return, what the call returned, origin ran).
+    fetches: Mutex<Vec<(u64, u64, Option<u64>, bool)>>,
 }
 
 struct Listener {
@@ -196,6 +198,7 @@ fn run_ops(cache: &TC, sh: &Arc<Shared>, thread: usize, ops: &[TOp]) -> Vec<Held
                 let waker = tokio::sim::noop_waker();
                 let mut cx = std::task::Context::from_waker(&waker);
                 let mut spins = 0;
+                let mut gave_up = false;
                 let r = loop {
                     if let std::task::Poll::Ready(r) = fut.as_mut().poll(&mut cx) {
                         break r.ok().map(|e| *e.value());
@@ -208,16 +211,25 @@ fn run_ops(cache: &TC, sh: &Arc<Shared>, thread: usize, ops: &[TOp]) -> Vec<Held
                         None => {
                             spins += 1;
                             if spins > 200 {
+                                // the caller gives up and drops its future; the fetch task lives on
+                                gave_up = true;
                                 break None;
                             }
                             sched::yield_point("fetch-idle");
                         }
                     }
                 };
-                if polled.load(Ordering::SeqCst) {
-                    // the origin ran: its value was (being) inserted by this call
-                    let now = sh.clock.load(Ordering::SeqCst);
+                drop(fut);
+                let ran = polled.load(Ordering::SeqCst);
+                if ran {
+                    // the origin ran: its value was (being) inserted by this call. If the caller gave up, the
+                    // fetch task finishes the insertion at some later time: the insert never "completes" for
+                    // the register oracle.
+                    let now = if gave_up { u64::MAX } else { sh.clock.load(Ordering::SeqCst) };
                     sh.log.lock().unwrap().push(Rec { thread, invoke, resp: now, obs: Obs::Insert { key: k, val: v } });
+                }
+                if !gave_up {
+                    sh.fetches.lock().unwrap().push((k, v, r, ran));
                 }
                 Obs::Lookup { key: k, kind: "gof", returned: r }
             }
@@ -438,6 +450,25 @@ fn execute(job: &TJob, ctx: Arc<Mutex<Ctx>>, on_deadlock: sched::DeadlockHandler
             let resp = sh.clock.fetch_add(1, Ordering::SeqCst);
             sh.log.lock().unwrap().push(Rec { thread: 0, invoke, resp, obs: Obs::Lookup { key: k, kind: "final-get", returned: r } });
         }
+        // C11 at thread granularity: a get_or_fetch call that was answered with the value of an explicit
+        // insert (so that insert completed while the fetch was waiting on its origin) must not have its own
+        // origin value in the cache afterwards — the late fetch result never replaces the insert.
+        {
+            let log = sh.log.lock().unwrap();
+            for (k, vf, returned, ran) in sh.fetches.lock().unwrap().iter() {
+                let Some(v) = returned else { continue };
+                if !*ran || v == vf {
+                    continue;
+                }
+                let final_is_fetch = log.iter().any(|r| matches!(r.obs, Obs::Lookup { key, kind: "final-get", returned: Some(x) } if key == *k && x == *vf));
+                if final_is_fetch {
+                    sh.complaints.lock().unwrap().push((
+                        "F.late-fetch-replaced-insert".into(),
+                        format!("get_or_fetch({k}) was answered with {v} (an explicit insert that completed while the fetch was waiting on its origin), but afterwards the cache holds the origin's value {vf}: the late fetch result replaced the insert"),
+                    ));
+                }
+            }
+        }
         // quiescent epilogue: accounting must be consistent and within capacity
         let usage = cache.usage();
         let entries = cache.entries();
@@ -448,9 +479,15 @@ fn execute(job: &TJob, ctx: Arc<Mutex<Ctx>>, on_deadlock: sched::DeadlockHandler
         // Every admitted entry has left by now (the cache is gone): exactly one notification each.
         {
             let leaves = sh.leaves.lock().unwrap();
+            // The value of a fetch whose caller was answered with something else (or gave up) may have been
+            // dropped instead of inserted (superseded fetch): it leaves at most once.
+            let maybe: Vec<u64> = sh.fetches.lock().unwrap().iter().filter(|f| f.2 != Some(f.1)).map(|f| f.1).collect();
             for r in sh.log.lock().unwrap().iter() {
                 if let Obs::Insert { key, val } = r.obs {
                     let n = leaves.get(&val).map(|v| v.len()).unwrap_or(0);
+                    if n == 0 && (r.resp == u64::MAX || maybe.contains(&val)) {
+                        continue;
+                    }
                     if n != 1 {
                         sh.complaints.lock().unwrap().push((
                             if n == 0 { "L.missing-leave".to_string() } else { "L.twice".to_string() },
@@ -527,6 +564,47 @@ pub fn c18_t() -> TProp {
         jobs: jobs_c18,
         rule: "Engine T (thread part of C18): two- and three-thread programs of lookups (drop / hold), touch, handle drops and evicting inserts / evict_all on one LRU shard (pool ratios 0.9 and 0.5), every interleaving with at most 2 preemptions (3 in the thorough tier for two-thread programs); a listener flags any eviction of an entry while a looked-up handle to it is held; held handles are re-read at the end.",
     }
+}
+
+/// C11 thread part: the window between the fetch task's supersession check and its insertion.
+pub fn c11_t() -> TProp {
+    TProp {
+        id: "C11",
+        owned: vec!["F.", "X.", "K."],
+        jobs: jobs_c11,
+        rule: "Engine T (thread part of C11): programs {get_or_fetch(k) [; get(k)]} vs {insert(k) [; insert(k)]} and get_or_fetch vs get_or_fetch vs insert on one key, all five algorithms, every interleaving of the OS threads (the caller drives its own fetch task) with at most 2 (thorough 3) preemptions at lock granularity; after all threads finished the main thread reads the key. Oracle: a get_or_fetch call that was answered with the value of an explicit insert must not leave its own origin value in the cache.",
+    }
+}
+
+fn jobs_c11(tier: Tier) -> Vec<TJob> {
+    let k = 4u64;
+    let f = TOp::Fetch { k };
+    let i = TOp::Ins { k };
+    let g = TOp::Get { k, hold: false };
+    let progs: Vec<Vec<Vec<TOp>>> = vec![
+        vec![vec![f], vec![i]],
+        vec![vec![f, g], vec![i]],
+        vec![vec![f], vec![i, i]],
+        vec![vec![f], vec![i, TOp::Rm { k }]],
+        vec![vec![f], vec![f], vec![i]],
+    ];
+    let mut v = vec![];
+    for algo in Algo::defaults() {
+        for threads in progs.iter() {
+            for prologue in [vec![], vec![TOp::Ins { k: 8 }]] {
+                v.push(TJob {
+                    algo,
+                    shards: 1,
+                    capacity: 2,
+                    prologue,
+                    threads: threads.clone(),
+                    bound: if tier == Tier::Thorough && threads.len() < 3 { 3 } else { 2 },
+                    zero_weight_key: None,
+                });
+            }
+        }
+    }
+    v
 }
 
 /// C13 thread part: conservation of leave notifications under concurrency.
